@@ -13,6 +13,10 @@ Ops (see the harness for the generator):
 * `init [U] n`                            `BitmapAccumulator::init(U, n)` on a fresh accumulator; U becomes the unspent set
 * `block k [spent]`                       k outputs appended, `spent` (ascending) spent, then `apply_to_bitmap_accumulator`
 * `rewind n' [restored] [affected_pos]`   output set shrinks to n' leaves, `restored` un-spent, then `apply_to_bitmap_accumulator(affected_pos)`
+* `peekrewind n' [restored] [affected_pos]`  the same inside a READ-ONLY extension that is then discarded
+                                          (`extending_readonly`: `get_merkle_proof`, `txhashset_read`, segmenter): the
+                                          accumulator seen inside is compared, the model state is NOT changed — the `reopen`
+                                          line that follows must find the head state untouched
 * `touch [affected_pos]`                  `apply_to_bitmap_accumulator(affected_pos)` with the output set unchanged
 * `reopen`                                accumulator replaced by `TxHashSet::bitmap_accumulator` (rebuild on open)
 * `scratch`                               property oracle: impl's incremental root vs the from-scratch root of the model's unspent set
@@ -101,6 +105,11 @@ def handle (st : St) (args : List String) (impl : String) : St × Verdict :=
     | some n', some restored, some affected =>
       let st' := { st with n := n', U := unionSorted (st.U.filter (· < n')) restored }
       step st' affected impl
+    | _, _, _ => (st, .unknown)
+  | ["peekrewind", n', restored, affected] => match nat? n', parseNatList restored, parseNatList affected with
+    | some n', some restored, some affected =>
+      let st' := { st with n := n', U := unionSorted (st.U.filter (· < n')) restored }
+      (st, (step st' affected impl).2)
     | _, _, _ => (st, .unknown)
   | ["touch", affected] => match parseNatList affected with
     | some affected => step st affected impl
